@@ -160,3 +160,58 @@ Theorem acyclic_b_sound : forall g, acyclic_b g = true ->
   forall t t', valid_tree g t -> desc t' t -> root g t' = root g t -> yield t' = yield t -> False.
 Proof. exact acyclic_b_sound_main. Qed.
 Print Assumptions acyclic_b_sound.
+
+(* ------------------------------------------------------------------ *)
+(* The TABLE side of C03: the nondeterministic LR machine over the real
+   multi-action, right-nulled table (Model/NLR.v: every action of a cell is a
+   move; a right-nulled reduction completes its node with the derivations of the
+   empty string of the nullable tail).  For every grammar and every table that
+   passes the boolean [sound_rn_b] (evaluated on the REAL LALR_RN table of every
+   generated grammar), EVERY accepting run returns a derivation tree of the
+   consumed input: no run of the table - hence no tree a GLR parser can assemble
+   from it by following its actions - is outside the set of derivation trees. *)
+From RV Require Import Model.LR Model.NLR Spec.ValidatorsRN Proofs.SoundRN Proofs.CompleteRN.
+
+Theorem nlr_sound : forall g T partial w t k,
+  wf_grammar_b g = true -> sound_rn_b g T = true ->
+  nrun g T partial (init 0 w) t k ->
+  valid_tree g t /\ root g t = g_start g /\ yield t = firstn k w /\ k <= length w /\
+  (partial = false -> ~ In STOP w -> k = length w).
+Proof. exact nlr_sound_top. Qed.
+Print Assumptions nlr_sound.
+
+(* the executable enumeration of accepting runs lists only accepting runs, and all
+   of them when no run was cut by the fuel *)
+Theorem nruns_exact : forall g T partial fuel c t k,
+  (In (t, k) (nruns g T partial fuel c) -> nrun g T partial c t k) /\
+  (nruns_cut g T partial fuel c = false -> nrun g T partial c t k -> In (t, k) (nruns g T partial fuel c)).
+Proof. exact nruns_exact_main. Qed.
+Print Assumptions nruns_exact.
+
+(* corollary used by the check: every tree the enumeration returns for a real table that
+   validates is a derivation tree of the whole input (full parse, no STOP inside) *)
+Corollary nparse_derivations : forall g T fuel w t k,
+  wf_grammar_b g = true -> sound_rn_b g T = true -> ~ In STOP w ->
+  In (t, k) (nparse g T false fuel w) ->
+  valid_tree g t /\ root g t = g_start g /\ yield t = w.
+Proof. exact nparse_derivations_main. Qed.
+Print Assumptions nparse_derivations.
+
+(* ... and conversely (for every table that also passes [complete_rn_b]): every derivation tree
+   of a sentence is returned by some accepting run over its yield. *)
+Theorem nlr_complete : forall g T t,
+  wf_grammar_b g = true -> complete_rn_b g T = true ->
+  valid_tree g t -> root g t = g_start g ->
+  nrun g T false (init 0 (yield t)) t (length (yield t)).
+Proof. exact nlr_complete_top. Qed.
+Print Assumptions nlr_complete.
+
+(* Together: the accepting runs of the nondeterministic machine over the REAL table are
+   EXACTLY the derivation trees of the input.  What remains unproved for C03 is only that
+   glr/parser.rs enumerates these runs (each once, up to the sharing of its forest). *)
+Theorem nlr_exact : forall g T w t,
+  wf_grammar_b g = true -> sound_rn_b g T = true -> complete_rn_b g T = true -> ~ In STOP w ->
+  (nrun g T false (init 0 w) t (length w) <->
+   valid_tree g t /\ root g t = g_start g /\ yield t = w).
+Proof. exact nlr_exact_main. Qed.
+Print Assumptions nlr_exact.
